@@ -52,6 +52,7 @@ struct ReaderGroup {
 pub struct ReadCursor {
     readers: AtomicPtr<ReaderGroup>,
     pub last_pos: Cell<usize>,
+    wrap: Index,
 }
 
 impl<'a> ReadAttempt<'a> {
@@ -219,6 +220,7 @@ impl ReadCursor {
                 ReadCursor {
                     readers: AtomicPtr::new(real_group),
                     last_pos: Cell::new(0),
+                    wrap,
                 },
                 reader,
             )
@@ -232,7 +234,15 @@ impl ReadCursor {
                 #[cfg(multiqueue2_verif)]
                 crate::verif_hooks::touch(first_ptr);
                 let rg = &*first_ptr;
-                let rval = rg.get_max_diff(cur_writer);
+                // With no stream left nothing will ever be consumed: report the
+                // queue as full rather than empty, so that a send racing with the
+                // departure of the last receiver is refused instead of running
+                // over values that were never consumed
+                let rval = if rg.readers.is_empty() {
+                    Some(self.wrap)
+                } else {
+                    rg.get_max_diff(cur_writer)
+                };
                 // This check ensures that the pointer hasn't changed
                 // We must first read the diff, *and then* check the pointer
                 // for changes.
